@@ -27,6 +27,17 @@ use std::time::Duration;
 extern crate serde_state;
 use serde_state::ser::SerializeState;
 
+/// C07's dump of the real compiled functions with the `Split` arities taken from the core IR
+/// (reused, not duplicated: the load-time verifier specification needs the same annotation).
+#[allow(dead_code)]
+#[path = "c07/bytecode.rs"]
+mod bytecode;
+
+thread_local! {
+    /// instruction arrays (JSON text) of real compiled modules, for the `instrs` stream
+    static INSTR_POOL: std::cell::RefCell<Vec<String>> = std::cell::RefCell::new(Vec::new());
+}
+
 // ------------------------------------------------------------------------------------------
 // VM helpers
 // ------------------------------------------------------------------------------------------
@@ -2077,6 +2088,10 @@ fn check_program(
             out.count("verify-spec:intact-accept");
         }
     }
+    // every instruction array of the emitted module: the model's decode∘encode reproduces the text,
+    // `Instruction::adjust` agrees with the generated table, and the module passes the verifier
+    // specification (`emitted_modules_verified`)
+    emitted_module_case(out, &vs.a, p, &bytes, &replay);
     // the structs are written with exactly the fields of Generated.ModuleFields, in that order
     if p.feats.contains(&"corpus") {
         if let Some(root) = jscan(&bytes) {
@@ -2341,6 +2356,265 @@ fn module_fn_sexp(b: &[u8]) -> Option<String> {
     let m = jget(&root, "module")?;
     let globals = jget(m, "module_globals")?.kids.len() as u64;
     fn_sexp(b, jget(m, "function")?, globals)
+}
+
+/// What the `mod` request needs of one function of the serialised module.
+struct ModFn {
+    sexp: String,
+    n: u64,
+    adj: i64,
+    supported: bool,
+    reser_same: bool,
+    first_diff: String,
+}
+
+/// `(fn args max upvars nstrings (record sizes) "<instructions text>" nosplits|(k…) (inner…))` for the
+/// function at `path`, the text taken verbatim from the real `compile_to_bytecode` output.
+fn mod_fn(b: &[u8], f: &JNode, upvars: u64, path: &mut Vec<usize>, dump: &[bytecode::FnDump]) -> Option<ModFn> {
+    use gluon::vm::types::Instruction;
+    let args = jnum(b, jget(f, "args")?)?;
+    let max = jnum(b, jget(f, "max_stack_size")?)?;
+    let nstr = jget(f, "strings")?.kids.len();
+    let recs: Vec<String> = jget(f, "records")?.kids.iter().map(|r| r.kids.len().to_string()).collect();
+    let ins = jget(f, "instructions")?;
+    let text = std::str::from_utf8(&b[ins.start..ins.end]).ok()?.to_string();
+    // the real reader / writer on this array
+    let real: Vec<Instruction> = serde_json::from_str(&text).ok()?;
+    let again = serde_json::to_string(&real).ok()?;
+    let reser_same = again == text;
+    let first_diff = if reser_same {
+        String::new()
+    } else {
+        let at = again.bytes().zip(text.bytes()).position(|(x, y)| x != y).unwrap_or(0);
+        let from = text[..at].rfind('{').unwrap_or(0);
+        text[from..].chars().skip(2).take_while(|c| c.is_ascii_alphanumeric()).collect()
+    };
+    let adj: i64 = real.iter().map(|i| i.adjust() as i64).sum();
+    let has_split = real.iter().any(|i| matches!(i, Instruction::Split));
+    let has_closedata = real.iter().any(|i| matches!(i, Instruction::CloseData { .. }));
+    // split arities: C07's annotation for the function at the same path, if it describes this array
+    let ann = dump.iter().find(|d| d.path == *path && d.instrs == real).and_then(|d| d.splits.clone());
+    let splits = match &ann {
+        Some(ks) => format!("({})", ks.iter().map(|k| k.to_string()).collect::<Vec<_>>().join(" ")),
+        None => "nosplits".to_string(),
+    };
+    let mut supported = !has_closedata && (ann.is_some() || !has_split);
+    let mut inner_upvars: std::collections::HashMap<u64, u64> = Default::default();
+    for i in &real {
+        match *i {
+            Instruction::MakeClosure { function_index, upvars } | Instruction::NewClosure { function_index, upvars } => {
+                inner_upvars.entry(function_index as u64).or_insert(upvars as u64);
+            }
+            _ => (),
+        }
+    }
+    let mut n = real.len() as u64;
+    let mut adj_total = adj;
+    let mut same_all = reser_same;
+    let mut diff_all = first_diff;
+    let mut inner = vec![];
+    for (j, g) in jget(f, "inner_functions")?.kids.iter().enumerate() {
+        // as in `fn_sexp`: the number of upvars a function expects
+        let declared = jget(g, "debug_info").and_then(|d| jget(d, "upvars")).map(|u| u.kids.len() as u64);
+        let up = match (declared, inner_upvars.get(&(j as u64)).copied()) {
+            (Some(d), Some(u)) if d == 0 && u > 0 && jget(g, "debug_info").and_then(|d| jget(d, "local_map")).map_or(true, |m| jget(m, "map").map_or(true, |x| x.kids.is_empty())) => u,
+            (Some(d), _) => d,
+            (None, u) => u.unwrap_or(0),
+        };
+        path.push(j);
+        let m = mod_fn(b, g, up, path, dump)?;
+        path.pop();
+        n += m.n;
+        adj_total += m.adj;
+        supported &= m.supported;
+        if same_all && !m.reser_same {
+            diff_all = m.first_diff.clone();
+        }
+        same_all &= m.reser_same;
+        inner.push(m.sexp);
+    }
+    INSTR_POOL.with(|pool| {
+        let mut pool = pool.borrow_mut();
+        if reser_same && pool.len() < 4000 && text.len() < 6000 && real.len() >= 2 {
+            pool.push(text.clone());
+        }
+    });
+    Some(ModFn {
+        sexp: format!("(fn {} {} {} {} ({}) {} {} ({}))", args, max, upvars, nstr, recs.join(" "), gv::quote(&text), splits, inner.join(" ")),
+        n,
+        adj: adj_total,
+        supported,
+        reser_same: same_all,
+        first_diff: diff_all,
+    })
+}
+
+fn emitted_module_case(out: &mut Out, vm: &Thread, p: &Prog, bytes: &[u8], replay: &dyn Fn(serde_json::Value) -> serde_json::Value) {
+    let root = match jscan(bytes) {
+        Some(r) => r,
+        None => return,
+    };
+    let dump = match bytecode::compile(vm, &p.name, &p.src) {
+        Ok(c) => c.fns,
+        Err(_) => {
+            out.count("mod:annotation-compile-failed");
+            vec![]
+        }
+    };
+    let m = (|| {
+        let m = jget(&root, "module")?;
+        let globals = jget(m, "module_globals")?.kids.len() as u64;
+        mod_fn(bytes, jget(m, "function")?, globals, &mut vec![], &dump)
+    })();
+    let m = match m {
+        Some(m) => m,
+        None => {
+            out.count("mod:not-scanned");
+            return;
+        }
+    };
+    if !m.reser_same {
+        // the property's own statement on the real code: what was loaded is what was written
+        out.oracle_fail(
+            &format!("instr-reserialise-differs:{}", m.first_diff),
+            "an instruction array read by the real Deserialize and written again differs from the text it was read from",
+            replay(json!({})),
+        );
+    }
+    let verdict = if m.supported { "accept" } else { "operands-accept" };
+    out.case(
+        &format!("mod {}", m.sexp),
+        &format!("(n {} adj {} rt {} range ok {})", m.n, m.adj, if m.reser_same { "same" } else { "differs" }, verdict),
+    );
+    out.count(&format!("mod:{}", verdict));
+    out.add("mod:instructions", m.n);
+    out.class(format!("mod:{}:{}", p.feats.join("+"), verdict));
+}
+
+/// Hand-damaged instruction arrays: the real `Deserialize` of `Vec<Instruction>` (then `Serialize`) vs
+/// the model's `decodeList` (then `encodeList`), exact.
+fn stream_instrs(out: &mut Out, rng: &mut Rng, n: usize) {
+    use gluon::vm::types::Instruction;
+    let pool: Vec<String> = INSTR_POOL.with(|p| p.borrow().clone());
+    if pool.is_empty() {
+        out.count("instrs:empty-pool");
+        return;
+    }
+    let real = |text: &str| -> String {
+        match serde_json::from_str::<Vec<Instruction>>(text) {
+            Ok(v) => format!("(ok {})", gv::quote(&serde_json::to_string(&v).unwrap())),
+            Err(_) => "err".to_string(),
+        }
+    };
+    const U32S: &[&str] = &["0", "1", "4294967295", "4294967296", "-1", "1.5", "\"3\"", "null", "true", "18446744073709551616", "[1]", "1e2"];
+    const U8S: &[&str] = &["0", "255", "256", "-1", "2.0", "\"a\""];
+    const I64S: &[&str] = &["9223372036854775807", "9223372036854775808", "-9223372036854775808", "-9223372036854775809", "0.5", "null", "12345678901234567890123"];
+    const F64S: &[&str] = &["3", "-7", "0", "123456789012", "\"x\"", "null", "[]", "2.5", "-1.25e-9"];
+    for _ in 0..n {
+        let text = rng.pick(&pool).clone();
+        let b = text.as_bytes();
+        let root = match jscan(b) {
+            Some(r) if r.kind == JK::Arr && !r.kids.is_empty() => r,
+            _ => continue,
+        };
+        // prefer an element of the wanted shape
+        let want = rng.below(3);
+        let cands: Vec<&JNode> = root
+            .kids
+            .iter()
+            .filter(|e| match want {
+                0 => e.kind == JK::Str,
+                1 => e.kind == JK::Obj && e.kids.len() == 1 && e.kids[0].kind == JK::Obj,
+                _ => e.kind == JK::Obj && e.kids.len() == 1 && e.kids[0].kind == JK::Num,
+            })
+            .collect();
+        let e: &JNode = if cands.is_empty() { &root.kids[rng.below(root.kids.len() as u64) as usize] } else { cands[rng.below(cands.len() as u64) as usize] };
+        let el = &text[e.start..e.end];
+        let (kind, new_el): (&str, String) = match e.kind {
+            JK::Str => {
+                let name = &el[1..el.len() - 1];
+                match rng.below(6) {
+                    0 => ("unit-as-null-object", format!("{{\"{}\":null}}", name)),
+                    1 => ("unit-as-zero-object", format!("{{\"{}\":0}}", name)),
+                    2 => ("unit-as-array-object", format!("{{\"{}\":[]}}", name)),
+                    3 => ("unknown-variant", "\"Nop\"".to_string()),
+                    4 => ("element-number", "7".to_string()),
+                    _ => ("unit-two-members", format!("{{\"{}\":null,\"Return\":null}}", name)),
+                }
+            }
+            JK::Obj if e.kids.len() == 1 => {
+                let k = &e.kids[0];
+                let name = k.key.as_ref().map(|x| x.2.clone()).unwrap_or_default();
+                if k.kind == JK::Obj {
+                    let members: Vec<(String, String)> =
+                        k.kids.iter().map(|m| (m.key.as_ref().unwrap().2.clone(), text[m.start..m.end].to_string())).collect();
+                    let obj = |ms: &[(String, String)]| {
+                        format!("{{\"{}\":{{{}}}}}", name, ms.iter().map(|(a, v)| format!("\"{}\":{}", a, v)).collect::<Vec<_>>().join(","))
+                    };
+                    match rng.below(9) {
+                        0 => {
+                            let mut ms = members.clone();
+                            ms.reverse();
+                            ("members-reversed", obj(&ms))
+                        }
+                        1 => {
+                            let mut ms = members.clone();
+                            let at = rng.below(ms.len() as u64 + 1) as usize;
+                            ms.insert(at, ("zz".into(), "[1,{\"a\":null},\"s\\\"q\"]".into()));
+                            ("unknown-member", obj(&ms))
+                        }
+                        2 => {
+                            let mut ms = members.clone();
+                            let d = ms[rng.below(ms.len() as u64) as usize].clone();
+                            ms.push(d);
+                            ("duplicate-member", obj(&ms))
+                        }
+                        3 => {
+                            let mut ms = members.clone();
+                            ms.remove(rng.below(ms.len() as u64) as usize);
+                            ("missing-member", obj(&ms))
+                        }
+                        4 => ("payload-array", format!("{{\"{}\":[{}]}}", name, members.iter().map(|m| m.1.clone()).collect::<Vec<_>>().join(","))),
+                        5 => ("payload-array-long", format!("{{\"{}\":[{},0]}}", name, members.iter().map(|m| m.1.clone()).collect::<Vec<_>>().join(","))),
+                        6 => ("payload-array-short", format!("{{\"{}\":[{}]}}", name, members.iter().skip(1).map(|m| m.1.clone()).collect::<Vec<_>>().join(","))),
+                        7 => {
+                            let mut ms = members.clone();
+                            let at = rng.below(ms.len() as u64) as usize;
+                            ms[at].1 = rng.pick(U32S).to_string();
+                            ("member-value", obj(&ms))
+                        }
+                        _ => ("struct-as-string", format!("\"{}\"", name)),
+                    }
+                } else {
+                    let vals: &[&str] = match name.as_str() {
+                        "PushByte" => U8S,
+                        "PushInt" => I64S,
+                        "PushFloat" => F64S,
+                        _ => U32S,
+                    };
+                    match rng.below(8) {
+                        0 => ("newtype-as-string", format!("\"{}\"", name)),
+                        1 => ("two-variants", format!("{{\"{}\":{},\"Pop\":1}}", name, &text[k.start..k.end])),
+                        2 => ("empty-object", "{}".to_string()),
+                        3 => ("unknown-variant", format!("{{\"Nop\":{}}}", &text[k.start..k.end])),
+                        _ => ("operand-value", format!("{{\"{}\":{}}}", name, rng.pick(vals))),
+                    }
+                }
+            }
+            _ => continue,
+        };
+        let damaged = format!("{}{}{}", &text[..e.start], new_el, &text[e.end..]);
+        let r = real(&damaged);
+        out.case(&format!("instrs {}", gv::quote(&damaged)), &r);
+        let outcome = if r == "err" { "err" } else { "ok" };
+        out.count(&format!("instrs:{}:{}", kind, outcome));
+        out.class(format!("instrs:{}:{}:{}", kind, &el.chars().filter(|c| c.is_ascii_alphabetic()).take(24).collect::<String>(), outcome));
+    }
+    // the intact arrays themselves
+    for text in pool.iter().take(40) {
+        out.case(&format!("instrs {}", gv::quote(text)), &real(text));
+        out.count("instrs:intact");
+    }
 }
 
 /// Paths whose damage the type-free part of the verifier specification (`operandsOkDeep`) must catch.
@@ -2649,5 +2923,7 @@ fn main() {
     stream_cyc(&mut out, &mut rng_y, if thorough { 300 } else { 60 });
     let mut rng_t = Rng::new(args.seed, 12121212);
     stream_text(&mut out, &mut rng_t, if thorough { 5000 } else { 600 });
+    let mut rng_i = Rng::new(args.seed, 1212121212);
+    stream_instrs(&mut out, &mut rng_i, if thorough { 6000 } else { 900 });
     out.finish();
 }
